@@ -24,6 +24,7 @@ type Result struct {
 	Seconds float64
 	Output  string
 	Cached  bool
+	CachedSeconds float64 // solver time when the cached answer was computed
 	Tried   []string
 }
 
@@ -157,6 +158,10 @@ func (d *Discharger) solve(text string, wantModel bool, observe string) Result {
 			parts := strings.SplitN(string(b), "\n", 3)
 			if len(parts) >= 2 && (parts[0] == "unsat" || (parts[0] == "sat" && (observe == "" || strings.Contains(string(b), "OBSERVED"))) || (!wantModel && parts[0] != "error")) {
 				r := Result{Status: parts[0], Solver: parts[1], Cached: true}
+				if f := strings.Fields(parts[1]); len(f) == 2 {
+					r.Solver = f[0]
+					fmt.Sscan(f[1], &r.CachedSeconds)
+				}
 				if len(parts) == 3 {
 					r.Output = parts[2]
 				}
@@ -206,7 +211,7 @@ func (d *Discharger) solve(text string, wantModel bool, observe string) Result {
 	res.Tried = tried
 	if (definite || !wantModel) && !d.noCache && res.Status != "error" {
 		_ = os.MkdirAll(filepath.Dir(cfile), 0o755)
-		_ = os.WriteFile(cfile, []byte(res.Status+"\n"+res.Solver+"\n"+res.Output), 0o644)
+		_ = os.WriteFile(cfile, []byte(res.Status+"\n"+res.Solver+fmt.Sprintf(" %.3f", res.Seconds)+"\n"+res.Output), 0o644)
 	}
 	if (res.Status == "unsat" || (res.Status == "sat" && !wantModel)) && os.Getenv("VERIF_KEEP") == "" {
 		_ = os.Remove(file)
